@@ -173,7 +173,6 @@ Sym(symm, subs) == [kind |-> "symmetric",
 RECURSIVE Unflat(_, _)
 Unflat(bs, k0) == IF Len(bs) = 0 THEN << >>
                   ELSE LET n == ProdInt(Tail(bs)) IN << k0 \div n + 1 >> \o Unflat(Tail(bs), k0 % n)
-GridSeq(bs) == [k \in 1..ProdInt(bs) |-> Unflat(bs, k - 1)]
 MaxOf(S) == CHOOSE x \in S : \A y \in S : y <= x
 \* the block shape spanned by the declared keys, and the dictionary lookup
 SymRank(e) == Len(e.symmetry[1].comp)
@@ -284,24 +283,56 @@ Medium(m) == Small(m) \cup {L("identity", <<m.g>>), L("dcontra", <<m.t, m.t>>)}
 Pairs(S)   == {<<a, b>> : a \in S, b \in S}
 Triples(S) == {<<a, b, c>> : a \in S, b \in S, c \in S}
 
-\* symmetry maps (1-based sub-element numbers): row-major upper triangle ("tri") and Voigt order
-SymTri2   == << <<1, 2>>, <<2, 3>> >>
-SymVoigt2 == << <<1, 3>>, <<3, 2>> >>
-SymTri3   == << <<1, 2, 3>>, <<2, 4, 5>>, <<3, 5, 6>> >>
-SymVoigt3 == << <<1, 6, 5>>, <<6, 2, 4>>, <<5, 4, 3>> >>
-NSub(sm) == Cardinality({sm[i][j] : i \in 1..Len(sm), j \in 1..Len(sm)})
-DiagSubs(sm) == {sm[i][i] : i \in 1..Len(sm)}
-\* diagonal blocks use element A, off-diagonal blocks element B
-SymAB(sm, A, B) == Sym(sm, [k \in 1..NSub(sm) |-> IF k \in DiagSubs(sm) THEN A ELSE B])
+\* symmetry numberings: block shape + the (1-based) sub-element number of every block component in row-major
+\* order: row-major upper triangle ("tri"), Voigt order, a rectangular block with identified entries, a vector
+\* of sub-elements with an identification, a fully symmetric rank-3 block
+T(bs, num) == [bs |-> bs, num |-> num]
+SymTri2   == T(<<2, 2>>, <<1, 2, 2, 3>>)
+SymVoigt2 == T(<<2, 2>>, <<1, 3, 3, 2>>)
+SymTri3   == T(<<3, 3>>, <<1, 2, 3, 2, 4, 5, 3, 5, 6>>)
+SymVoigt3 == T(<<3, 3>>, <<1, 6, 5, 6, 2, 4, 5, 4, 3>>)
+SymRect23 == T(<<2, 3>>, <<1, 2, 1, 3, 2, 3>>)
+SymVec3   == T(<<3>>, <<1, 2, 1>>)
+SymCube2  == T(<<2, 2, 2>>, <<1, 2, 2, 3, 2, 3, 3, 4>>)
+NSub(tab) == Cardinality({tab.num[k] : k \in 1..Len(tab.num)})
+DiagSubs(tab) == {tab.num[k] : k \in {q \in 1..Len(tab.num) :
+                                        LET c == Unflat(tab.bs, q - 1) IN \A a \in 1..Len(c) : c[a] = c[1]}}
+\* The dictionary of a numbering written in the order ord (a permutation of the row-major positions):
+\* the d-th entry written is  Unflat(ord[d]) : num[ord[d]].
+RowMajor(tab) == [k \in 1..Len(tab.num) |-> k]
+Decl(tab, ord) == [d \in 1..Len(ord) |-> [comp |-> Unflat(tab.bs, ord[d] - 1), sub |-> tab.num[ord[d]]]]
+AllOrders(n) == {p \in [1..n -> 1..n] : \A i, j \in 1..n : p[i] = p[j] => i = j}
+\* diagonal blocks use element A, the other blocks element B
+SymABO(tab, ord, A, B) == Sym(Decl(tab, ord), [k \in 1..NSub(tab) |-> IF k \in DiagSubs(tab) THEN A ELSE B])
+SymAB(tab, A, B) == SymABO(tab, RowMajor(tab), A, B)
 Compat(S, m) == {ab \in Pairs(S) : ab[1].refshape = ab[2].refshape /\ PhysShape(ab[1], m) = PhysShape(ab[2], m)}
-SymElems(maps, S, m) == {SymAB(sm, ab[1], ab[2]) : sm \in maps, ab \in Compat(S, m)}
+SymElems(tabs, S, m) == {SymAB(tab, ab[1], ab[2]) : tab \in tabs, ab \in Compat(S, m)}
+SymOrdElems(TOs, ABs) == {SymABO(to[1], to[2], ab[1], ab[2]) : to \in TOs, ab \in ABs}
+\* ways people write such a dictionary down
+NamedOrders == {
+  <<SymVoigt2, <<1, 2, 4, 3>>>>,                    \* upper triangle first, then the mirrored entries
+  <<SymVoigt2, <<1, 4, 2, 3>>>>,                    \* diagonal first
+  <<SymTri3, <<1, 4, 7, 2, 5, 8, 3, 6, 9>>>>,       \* column-major
+  <<SymTri3, <<9, 8, 7, 6, 5, 4, 3, 2, 1>>>>,       \* reversed
+  <<SymTri3, <<1, 5, 9, 2, 3, 6, 4, 7, 8>>>>,       \* diagonal, upper triangle, lower triangle
+  <<SymTri3, <<1, 2, 3, 5, 6, 9, 4, 7, 8>>>>,       \* upper triangle, then the mirrored entries
+  <<SymRect23, <<1, 2, 3, 4, 5, 6>>>>,
+  <<SymRect23, <<1, 4, 2, 5, 3, 6>>>>,              \* column-major
+  <<SymRect23, <<3, 1, 5, 2, 6, 4>>>>,
+  <<SymVec3, <<1, 2, 3>>>>,
+  <<SymVec3, <<3, 1, 2>>>>,
+  <<SymCube2, <<1, 2, 3, 4, 5, 6, 7, 8>>>>,
+  <<SymCube2, <<1, 8, 2, 3, 5, 4, 6, 7>>>> }        \* the two "diagonal" entries, then by sub-element
+AllOrders2 == {<<SymTri2, p>> : p \in AllOrders(4)}    \* every way of writing a 2 x 2 dictionary
+OrdAB(m) == {<<L("identity", << >>), L("l2", << >>)>>, <<L("contravariant", <<m.t>>), L("covariant", <<m.t>>)>>}
 
 NestQ(m) == {Mix(<<a, b>>) : a \in {L("identity", << >>), L("covariant", <<m.t>>)},
                              b \in {L("contravariant", <<m.t>>), L("l2", << >>)}}
-            \cup {SymAB(SymTri2, a, a) : a \in {L("identity", << >>), L("dcov", <<m.t, m.t>>)}}
+            \cup {SymAB(SymTri2, L("identity", << >>), L("identity", << >>)),
+                  SymABO(SymTri2, <<1, 4, 2, 3>>, L("dcov", <<m.t, m.t>>), L("dcov", <<m.t, m.t>>))}
 NestT(m) == {Mix(s) : s \in Pairs(Small(m))}
             \cup {Mix(<<L("identity", <<m.g>>), a, L("l2", << >>)>>) : a \in Small(m)}
-            \cup {SymAB(sm, a, a) : sm \in {SymTri2, SymVoigt3},
+            \cup {SymABO(to[1], to[2], a, a) : to \in {<<SymTri2, <<1, 2, 4, 3>>>>, <<SymVoigt3, RowMajor(SymVoigt3)>>},
                                     a \in {L("identity", << >>), L("dcov", <<m.t, m.t>>), L("contravariant", <<m.t>>)}}
 
 Quick(m) ==
@@ -309,6 +340,8 @@ Quick(m) ==
   \cup {Mix(s) : s \in Pairs(Core(m))}
   \cup {Mix(s) : s \in Triples(Small(m))}
   \cup SymElems({SymTri2, SymVoigt2, SymTri3}, Medium(m) \cup {L("dcov", <<m.t, m.t>>)}, m)
+  \cup SymOrdElems(AllOrders2, {<<L("identity", << >>), L("l2", << >>)>>})
+  \cup SymOrdElems(NamedOrders, OrdAB(m))
   \cup {Mix(<<x, y>>) : x \in NestQ(m), y \in Small(m)}
   \cup {Mix(<<y, x>>) : x \in NestQ(m), y \in Small(m)}
   \cup {Mix(s) : s \in Pairs(NestQ(m))}
@@ -318,6 +351,8 @@ Thorough(m) ==
   \cup {Mix(s) : s \in Pairs(AllLeaves(m))}
   \cup {Mix(s) : s \in Triples(Core(m))}
   \cup SymElems({SymTri2, SymVoigt2, SymTri3, SymVoigt3}, Core(m) \cup {L("l2", <<m.g>>), L("l2", <<2, 2>>)}, m)
+  \cup SymOrdElems(AllOrders2, Compat(Small(m), m))
+  \cup SymOrdElems(NamedOrders, Compat(Medium(m) \cup {L("dcov", <<m.t, m.t>>)}, m))
   \cup {Mix(<<x, y>>) : x \in NestT(m), y \in Medium(m)}
   \cup {Mix(<<y, x>>) : x \in NestT(m), y \in Medium(m)}
   \cup {Mix(<<y, x, z>>) : x \in NestT(m), y \in Small(m), z \in Small(m)}
@@ -374,7 +409,7 @@ AllDefined == stage = "done" => \A k \in 1..Len(phys) : QDef(phys[k])
 PieceSeq(e, m) ==
   IF e.kind = "mixed"
   THEN [s \in 1..Len(e.subs) |-> [sub |-> s, n |-> PhysSize(e.subs[s], m)]]
-  ELSE [k \in 1..(Len(e.symmetry) * Len(e.symmetry)) |-> [sub |-> SymAt(e, k), n |-> PhysSize(e.subs[1], m)]]
+  ELSE [k \in 1..NBlocks(e) |-> [sub |-> SymAt(e, k), n |-> PhysSize(e.subs[1], m)]]
 PieceOffs(P) == [p \in 1..(Len(P) + 1) |-> SumInt([q \in 1..(p - 1) |-> P[q].n])]     \* prefix sums
 Glob(O, pc) == O[pc[1]] + pc[2]                                  \* (piece, local component) -> component
 Loc(P, O, k) == LET p == CHOOSE q \in 1..Len(P) : O[q] < k /\ k <= O[q] + P[q].n
@@ -402,10 +437,28 @@ ShapeAlgebra ==
 
 \* a symmetric numbering yields a symmetric block tensor
 SymmetricBlocks ==
-  (stage = "done" /\ elem.kind = "symmetric" /\ elem.symmetry = Transpose(elem.symmetry)) =>
-    LET n == Len(elem.symmetry)  b == PhysSize(elem.subs[1], map)
+  (/\ stage = "done" /\ elem.kind = "symmetric" /\ SymRank(elem) = 2
+   /\ BlockShape(elem)[1] = BlockShape(elem)[2]
+   /\ \A i, j \in 1..BlockShape(elem)[1] : SubAt(elem, <<i, j>>) = SubAt(elem, <<j, i>>)) =>
+    LET n == BlockShape(elem)[1]  b == PhysSize(elem.subs[1], map)
     IN \A i \in 1..n, j \in 1..n, c \in 1..b :
          phys[((i - 1) * n + (j - 1)) * b + c] = phys[((j - 1) * n + (i - 1)) * b + c]
+
+\* the order in which a symmetry dictionary was written is not observable: the element re-declared in
+\* row-major order (at every level of the tree) has the same physical shape and the same push-forward
+RECURSIVE Canon(_)
+Canon(e) ==
+  CASE e.kind \in LeafKinds -> e
+    [] e.kind = "mixed" -> Mix([s \in 1..Len(e.subs) |-> Canon(e.subs[s])])
+    [] e.kind = "symmetric" ->
+         LET bs == BlockShape(e)
+         IN Sym([k \in 1..ProdInt(bs) |-> [comp |-> Unflat(bs, k - 1), sub |-> SubAt(e, Unflat(bs, k - 1))]],
+                [s \in 1..Len(e.subs) |-> Canon(e.subs[s])])
+DeclOrderIrrelevant ==
+  (stage = "done" /\ Canon(elem) # elem) =>
+     /\ Legal(Canon(elem), map)
+     /\ pshape = PhysShape(Canon(elem), map)
+     /\ phys = Push(Canon(elem), map, ref)
 
 \* --- covariant . contravariant duality:  (K^T r) . (J s / detJ) detJ = r . s ------------------
 Duality ==
